@@ -37,7 +37,8 @@ ASSUMPTIONS = ['note symbols are library symbols (kind and value of a module-lev
                'chords carry a tonality with degree 0..11 and a degree 0..6; part names are name__index; drums parts '
                'hold drum notes, rests and continuations (what Chord.__call__ produces); melodies are non-empty',
                'one-note melodies are read back as a note (Melody.__eq__ accepts it): compared as note lists',
-               'velocity of the re-read object is the one of its dynamics figure (the text holds the figure, not the amplitude)',
+               'velocity of the re-read object is the one of its dynamics figure (the text holds the figure, not the '
+               'amplitude; the figure n, amplitude <= 0, is written .set_amp(0))',
                'DataFrame clause: positive durations (ties in start are ordered by an unstable sort), parts compared as '
                'a dictionary (groupby order), at least one note per chord']
 
@@ -206,6 +207,8 @@ def note_chain(node):
                         and len(arg.args) == 2):
                     raise NotInGrammar(ast.dump(node))
                 ops.append(['aug', _int(arg.args[0]), _int(arg.args[1])])
+            elif name == 'set_amp':
+                ops.append(['setamp', _int(arg)])
             elif name == 'add_tags':
                 if not isinstance(arg, ast.Set):
                     raise NotInGrammar(ast.dump(node))
@@ -297,6 +300,8 @@ def render_op(op):
         return f'.augment(frac({op[1]}, {op[2]}))'
     if op[0] == 'tags':
         return '.add_tags({' + ', '.join(repr(t) for t in op[1]) + '})'
+    if op[0] == 'setamp':
+        return f'.set_amp({op[1]})'
     raise ValueError(op)
 
 
@@ -395,10 +400,9 @@ def rnote_j(rng, kinds=None, wide=True, plain_p=0.0):
     if rng.random() < plain_p:
         j.update(oct=0, amp=66, tags=[])
         return j
-    notelike = k not in ('d', 'x')
-    if rng.random() < (0.25 if notelike else (0.04 if wide else 0)):
+    if rng.random() < 0.25:
         j['mode'] = rng.choice(MODES)
-    if rng.random() < (0.25 if notelike else (0.04 if wide else 0)):
+    if rng.random() < 0.25:
         j['acc'] = rng.choice(ACCS)
     return j
 
@@ -494,6 +498,8 @@ def rcode(rng, p_bad=0.06):
             ops.append(['attr', rng.choice(ACCS)])
         elif y < 0.78:
             ops.append(['attr', rng.choice(DYN + ['n'])])
+        elif y < 0.82:
+            ops.append(['setamp', rng.choice([0, 0, 1, 40, 127, -3])])
         elif y < 0.86:
             ops.append(['tags', rng.sample(TAGS, rng.choice([0, 1, 2, 3]))])
         elif y < 0.93:
@@ -836,12 +842,6 @@ def classify_note(d):
     dur = x[1] if kind in ('r', 'l') else x[3]
     if field == 'duration' and dur.denominator > 1000:
         return 'note:duration-denominator>1000'
-    if kind not in ('r', 'l') and x[6] == 'n' and field in ('duration', 'dynamics'):
-        return 'note:dynamics-n-read-as-duration'
-    if kind in ('x', 'd') and field in ('mode', 'accidental'):
-        return 'note:unpitched:mode-or-accidental-not-printed'
-    if kind in ('x', 'd'):
-        return f'note:{kind}:{field}-not-printed'
     return f'note:{kind}:{field}'
 
 
@@ -878,7 +878,7 @@ def compare_reread(kind, x, y, text):
         return ('reread:type', type(y).__name__, 'a chord or score')
     if any(isinstance(c, Score) for c in ys):
         shape = ''.join('x' if is_custom(c) else 'p' for c in xs)
-        return ('score:nested-score-after-custom-chord', f'chords of the re-read score: {[type(c).__name__ for c in ys]}',
+        return ('score:nested-score', f'chords of the re-read score: {[type(c).__name__ for c in ys]}',
                 f'{len(xs)} chords ({shape})')
     if len(xs) != len(ys):
         return ('score:length', len(ys), len(xs))
@@ -890,10 +890,7 @@ def compare_reread(kind, x, y, text):
             return ('chord:class', fy[0], fx[0])
         if fx[1] != fy[1]:
             hx, hy = fx[1], fy[1]
-            if hx[1] == '5' and hy[1] == '' and (hx[0], hx[2], hx[3]) == (hy[0], hy[2], hy[3]):
-                sig = 'chord:figure-5-read-as-empty'
-            else:
-                sig = 'chord:' + next(nm for nm, p, q in zip(['degree', 'extension', 'tonality', 'octave'], hx, hy) if p != q)
+            sig = 'chord:' + next(nm for nm, p, q in zip(['degree', 'extension', 'tonality', 'octave'], hx, hy) if p != q)
             return (sig, hy, hx)
         if [k for k, _ in fx[2]] != [k for k, _ in fy[2]]:
             return ('chord:parts', [k for k, _ in fy[2]], [k for k, _ in fx[2]])
@@ -1073,12 +1070,6 @@ def sanitize_note(j):
     j = dict(j)
     if Fraction(j['dur']).denominator > 1000:
         j['dur'] = '1'
-    if j['type'] == 'x':
-        j['oct'] = 0
-    if j['type'] in ('x', 'd'):
-        j['mode'] = j['acc'] = None
-    if j['type'] == 'd' or j['amp'] == 0:
-        j['amp'] = 66
     return j
 
 
@@ -1088,8 +1079,6 @@ def sanitize(name, inp):
 
     def item(c):
         c = dict(c)
-        if c.get('ext') == '5':
-            c['ext'] = ''
         c['parts'] = [[k, [sanitize_note(n) for n in m]] for k, m in c['parts']]
         if name == 'dataframe':
             c['parts'] = [[k, [dict(n, tags=[]) for n in m]] for k, m in c['parts'] if m]
@@ -1108,8 +1097,6 @@ def sanitize(name, inp):
         items = [item(c) for c in j['items']]
         if name == 'dataframe':
             items = [c for c in items if c['parts']]
-        elif name == 'roundtrip':                 # no custom chord behind two plain chords
-            items = [c for i, c in enumerate(items) if i < 2 or not c.get('custom')]
         inp['j'] = {'items': items}
     return inp
 
@@ -1157,6 +1144,8 @@ def well_referenced_j(j):
         return False
 
 
+# inputs that failed before the repairs bbbdf5d / 0a31493 / e90a01c / 14f203b / 6fc8934 (they must pass now), and the
+# witnesses of what is still a known finding
 WITNESSES = [
     # D9: pattern note with an octave
     ('roundtrip', {'kind': 'note', 'j': {'type': 'x', 'val': 3, 'oct': 1, 'dur': '1/2', 'mode': None, 'acc': None, 'amp': 66, 'tags': []}}),
